@@ -267,6 +267,7 @@ PROPS = {
             "a Down sender is told so; a renewable instance told it is down switches to a differing, winning identity of its address, restarts at incarnation 0 and notifies Rejoin": "theorem (full): down_sender_is_told, change_identity_resets, told_down_renews_identity",
             "the renewed identity supersedes the Down record of its predecessor (Rename + MemberUp); Announce is accepted by address": "theorem (full): renewed_identity_supersedes_down_record, announce_is_accepted_by_address",
             "datagrams to a previous identity are ignored": "theorem (full): datagrams_to_a_previous_identity_are_ignored - the mechanism behind finding F9",
+            "any datagram from the renewed identity supersedes the record of its predecessor, for good (whole call; how the cluster accepts a rejoin)": "theorem (full, any reachable state, any message kind and payload, any RNG): C05H.renewed_member_supersedes_its_record — after successfully handling a datagram addressed to it from a newer identity (higher generation) of an address it lists under x (typically as Down after the partition), no record bears x any more and the address is listed at a generation at least the sender's; by C09H.generation_never_goes_back it stays so over any history without a forget-timer. Proofs/Rejoin.lean (applyUpdate_lists, handleData_lists_sender: run decomposition + the Full instance of GenInv); worked example: Down(2,gen 0) + Gossip from (2,gen 1) gives Alive(2,gen 1)",
             "after the heal every live instance lists every other within a bounded number of announce periods": "FALSE on the current tree: KNOWN FINDING F9 (about 4-5% of simulated healed partitions end with every node renewed at the same time and Disconnected forever); every other simulated run converges; not a theorem",
         },
         "search: simulator, clusters of 3..6 (thorough ..12), every two-sided split (bit mask) including single-node sides, partition long enough for mutual Down, heal, 8 announce-to-down periods; oracle: Rejoin never Defunct, winning identity, Active after Rejoin, full mutual listing under current identities. " + RULE_HIST,
